@@ -3,8 +3,8 @@ from checks import _engine, C11_glue
 
 MANIFEST = dict(
     technique="Coq proof over the executable engine model (ack branch, DoAckLock single-shot, rollback) + differential correspondence with injected acknowledgements",
-    text="Theorems in coq/Properties/C11*.v over the engine model (a fresh ack-lock is granted without reply, answered SUCCED only by DoAckLock(true); DoAckLock is single-shot; negative ack / ack timeout remove the hold, undo the value via recover and leave a wake-up pending; other requests naming the LockId get LOCK_ACK_WAITING and change nothing) and refutations for the defects found. Tie = differential correspondence: the harness plays the replication layer (acknowledges the AOF records carrying a lock pointer in generated orders, positive / negative / late / never), comparing replies, snapshots incl. ackCount and reference counts. Monitors: ack discipline, one reply per request, census.",
-    note="Trusted: Coq kernel; model validated by the correspondence check; the counting of acknowledgements runs through the real ReplicationAckDB (ProcessLeaderPushLock / Aofed / Acked); the quorum bookkeeping of the replication manager (which count an ack DB holds when followers join / leave) and the ack reporting of AofFile.Flush are decided by the sub-check checks/C11_glue.py (coq/AckGlue, coq/Properties/C11_glue.v: generated UpdateDBAckCount, real ReplicationManager and AofFile with injected write errors); 'distinct followers' is an assumption about the stream. Known findings in known_findings/C11.json.",
+    text="Theorems in coq/Properties/C11*.v over the engine model (a fresh ack-lock is granted without reply, answered SUCCED only by DoAckLock(true); DoAckLock is single-shot; negative ack / ack timeout remove the hold, undo the value via recover and leave a wake-up pending; other requests naming the LockId get LOCK_ACK_WAITING and change nothing; UNLOCK records of a registered lock drop the registration: a later acknowledgement for it does nothing; in a monitored run an acknowledgement answers only the request it was registered for) and refutations for the defects found. Tie = differential correspondence: the harness plays the replication layer as ReplicationManager.PushLock does -- every LOCK / UNLOCK record carrying a lock pointer goes through the real ProcessLeaderPushLock / ProcessLeaderPushUnLock -- and acknowledges the records in generated orders (positive / negative / late / never; half of the histories with free-list recycling of Lock objects, incl. the interleaving ack timeout -> new ack-lock -> late acknowledgement), comparing replies, snapshots incl. ackCount and reference counts. Monitors: ack discipline (incl. SUCCED only through an acknowledgement addressed to the request's own registration), one reply per request, census.",
+    note="Trusted: Coq kernel; model validated by the correspondence check; the counting of acknowledgements runs through the real ReplicationAckDB (ProcessLeaderPushLock / PushUnLock / Aofed / Acked); the quorum bookkeeping of the replication manager (which count an ack DB holds when followers join / leave) and the ack reporting of AofFile.Flush are decided by the sub-check checks/C11_glue.py (coq/AckGlue, coq/Properties/C11_glue.v: generated UpdateDBAckCount, real ReplicationManager and AofFile with injected write errors); 'distinct followers' is an assumption about the stream. Known findings in known_findings/C11.json.",
 )
 PROFILES = [("ack", 1.0)]
 MONITORS = ["C11", "C03", "C17", "PANIC"]
